@@ -53,7 +53,7 @@ theorem published_target_is_latest_fetch {a0 : Nat} {script : List Reply} {t0 : 
     ∃ n, look (run B (Kit.Dir.init fs0) (writesOf s)).fs (target B) = some (.link (verDir B n)) ∧
       DirIs (run B (Kit.Dir.init fs0) (writesOf s)).fs (verDir B n) (asMap (filesOf (fileSetOf r))) ∧
       OnlyVersion B (run B (Kit.Dir.init fs0) (writesOf s)).fs n := by
-  have hp := (fetch_fresh_key_one_fileset h).2.2.1
+  have hp := (fetch_fresh_key_one_fileset h).2.2.2.1
   have hdir : s.dirOn = true := rreach_dirOn h
   rw [hdir, hgood] at hp
   simp only [if_true, List.map_cons] at hp
@@ -69,6 +69,6 @@ theorem published_target_is_latest_fetch {a0 : Nat} {script : List Reply} {t0 : 
 
 /-- Non-vacuity: in the example run the good fetches are 2 and 0 (1 failed), so the target holds
 fetch 2's set. -/
-example : ex2.log.filter (·.good) = [⟨1810000000000, 2, true, 7, 3600000000000⟩, ⟨0, 0, true, 7, 1800000000000⟩] := by decide
+example : ex2.log.filter (·.good) = [⟨1812000000000, 2, true, 7, 3600000000000, 1812000000000⟩, ⟨0, 0, true, 7, 1800000000000, 0⟩] := by decide
 
 end Kit.Spiffe
